@@ -36,6 +36,14 @@ func main() {
 		for _, id := range rules.IDs() {
 			fmt.Println(id)
 		}
+	case "describe":
+		out := map[string]any{}
+		for _, id := range rules.IDs() {
+			p := rules.Registry[id]
+			out[id] = map[string]any{"explain": p.Explain, "trusted": p.Trusted, "assume": p.Assume, "technique": p.Technique}
+		}
+		b, _ := json.MarshalIndent(out, "", " ")
+		fmt.Println(string(b))
 	case "check":
 		fs := flag.NewFlagSet("check", flag.ExitOnError)
 		prop := fs.String("property", "", "property id")
